@@ -42,13 +42,16 @@ with open(f"{V}/seeded/RESULTS.md", "w") as o:
             "seed arrived; later rounds = after strengthening).\n\n")
     o.write("| seed | package | caught now | first caught | reporting harness : assertion |\n|---|---|---|---|---|\n")
     for sid, prop, pkg, last, first, meta in rows:
+        if meta.get("neutralised"):
+            o.write(f"| {sid} | {pkg or '(root)'} | n/a (neutralised by a fix) | - | exposed a genuine defect, see meta.json |\n")
+            continue
         if not last:
             o.write(f"| {sid} | {pkg} | not run | | |\n")
             continue
         caught = "yes" if last["exit"] == "1" else "**no**"
         cb = "; ".join(last["caught_by"][:3]) + (" …" if len(last["caught_by"]) > 3 else "")
         o.write(f"| {sid} | {pkg or '(root)'} | {caught} | {first or '-'} | {cb} |\n")
-    n = sum(1 for r in rows if r[3] and r[3]["exit"] == "1")
+    n = sum(1 for r in rows if r[3] and r[3]["exit"] == "1" and not r[5].get("neutralised"))
     o.write(f"\nCaught: {n} of {len(rows)}.\n\n## What each change is\n\n")
     for sid, prop, pkg, last, first, meta in rows:
         o.write(f"- **{sid}** ({prop}): {meta.get('what','').strip()}\n  *Needs:* {meta.get('needs','').strip()}\n")
